@@ -85,11 +85,39 @@ def invoke(ps, p, m, arg):
     return getattr(p, m)()
 
 
-def classify(ps, fn, pid):
+STR_METHODS = {"exe", "name", "cwd", "username", "status"}
+INT_METHODS = {"ppid", "nice", "num_threads", "num_fds", "cpu_num"}
+
+
+def well_formed(v, m=None, depth=0):
+    """A returned value is data: no exception object, no callable or generator inside it, and
+    of the documented type for the methods whose type is a plain one."""
+    import types
+    if isinstance(v, (BaseException, types.GeneratorType, types.FunctionType, types.MethodType, type)):
+        return False
+    if m in STR_METHODS and not isinstance(v, str):
+        return False
+    if m in INT_METHODS and (not isinstance(v, int) or isinstance(v, bool)):
+        return False
+    if m == "cmdline" and not (isinstance(v, list) and all(isinstance(x, str) for x in v)):
+        return False
+    if depth > 4:
+        return True
+    if isinstance(v, dict):
+        return all(well_formed(k, None, depth + 1) and well_formed(x, k if m == "as_dict" and isinstance(k, str) else None, depth + 1)
+                   for k, x in v.items() if not (m == "as_dict" and x is None))
+    if isinstance(v, (list, tuple, set, frozenset)):
+        return all(well_formed(x, None, depth + 1) for x in v)
+    return True
+
+
+def classify(ps, fn, pid, m=None):
     """-> (outcome class, well-formed, pid carried by the exception or None)"""
     try:
         v = fn()
-        return "value", True, None
+        if m == "process_iter":
+            return "value", True, None
+        return "value", well_formed(v, m), None
     except ps.ZombieProcess as ex:
         return "ZP", True, ex.pid
     except ps.NoSuchProcess as ex:
@@ -139,7 +167,7 @@ def one_run(w, ps, m, arg, plan, cold=False):
             w.hooks.setdefault(base + k, []).append(lambda: (PID in w.procs) and w.exit(PID))
         else:
             w.faults[base + k] = getattr(errno, kind)
-    out, wf, epid = classify(ps, lambda: invoke(ps, p, m, arg), PID)
+    out, wf, epid = classify(ps, lambda: invoke(ps, p, m, arg), PID, m)
     w.hooks.clear()
     w.faults.clear()
     w.observer = None
@@ -331,6 +359,25 @@ def check(ctx):
         if st != "ok":
             raise core.Machinery("fault run failed: %s" % (val,))
         recs.extend(val)
+    # second phase: a refused access can send the call down a path the undisturbed call never takes
+    # (a fallback, a guess from other files); the process vanishes at each access of THAT path
+    n0 = {json.dumps([m, a], default=str): n for (m, a), n in zip(ms, counts)}
+    more = []
+    for r0 in recs:
+        if len(r0["plan"]) == 1 and r0["plan"][0][1] in ("EACCES", "EPERM"):
+            i, kind = r0["plan"][0]
+            base = n0.get(json.dumps([r0["m"], r0["arg"]], default=str), 0)
+            for j in range(max(i + 1, base), min(r0["n"], base + 12)):
+                for what in ("vanish", "zombie"):
+                    more.append((r0["m"], r0["arg"], [(i, kind), (j, what)]))
+    if more:
+        res2 = forkpool.map_fork(fault_chunk, [more[i:i + 25] for i in range(0, len(more), 25)])
+        for st, val in res2:
+            if st != "ok":
+                raise core.Machinery("fault run (second phase) failed: %s" % (val,))
+            recs.extend(val)
+        jobs.extend(more)
+    ctx.cov.setdefault("replay", {})["fault-runs-on-fallback-paths"] = len(more)
     outs = {r0["out"] for r0 in recs}
     d = tlc.scratch()
     tf = os.path.join(d, "traces.ndjson")
